@@ -1,25 +1,25 @@
----- MODULE MC_C06_quick_a_evi ----
+---- MODULE MC_C09_quick_e_self_multiply ----
 EXTENDS CircuitSys
-c_Dom == <<2, 3>>
-c_KSet == {1, 2}
+c_Dom == <<2, 2, 2>>
+c_KSet == {1}
 c_MaxK == 8
-c_MaxL == 4
-c_MaxIn == 2
-c_InKindSeq == <<"emb", "catp", "catl">>
-c_InnerKinds == {"had", "kron", "mix", "sum"}
+c_MaxL == 7
+c_MaxIn == 3
+c_InKindSeq == <<"emb">>
+c_InnerKinds == {"had"}
 c_MaxAr == 2
 c_FreeOrder == FALSE
 c_MaxOuts == 2
 c_MaxBases == 1
 c_MaxOps == 1
-c_OpSet == {"evidence"}
+c_OpSet == {"multiply"}
 c_Scheme == 1
-c_OnlySD == TRUE
+c_OnlySD == FALSE
 c_PolyDeg == 1
 c_DiffK == {1}
 c_MaxDeg == 2
 c_EvExp == 0
-c_Invalid == FALSE
+c_Invalid == TRUE
 c_MaxHist == 0
 c_RunActs == {"eval", "update"}
 c_NVer == 2
@@ -27,8 +27,8 @@ c_GradMod == 0
 c_QueryOn == FALSE
 c_J == 1
 c_EmitOps == {1}
-c_EmitMod == 100
+c_EmitMod == 1
 c_EmitRes == 0
-c_EmitSmall == 2
-c_EmitFilter == "all"
+c_EmitSmall == 0
+c_EmitFilter == "nonsd"
 ====
